@@ -1665,3 +1665,103 @@ func runPrunerBuiltFromFilter(c *Ctx, rule string) {
 	check("compiler/optimizer.newRangePruner", "compiler/optimizer.buildRangePruner")
 	check("compiler/optimizer.maybeNewRangePruner", "compiler/optimizer.newRangePruner")
 }
+
+// ---- C20-K1: every step kind the shaper can create is handled when the step is applied.
+//
+// expr.createStep and its helpers build a tree of `step` values whose `op` field says what to do
+// with a value of the input type; step.build (with buildRecord for the children of a record)
+// dispatches on it and panics on an op it does not know.  The set of op constants stored into a
+// step anywhere in the package must be covered by the constants step.build / buildRecord /
+// buildArrayOrSet compare `op` with: a kind that is created but not applied makes fuse (whose
+// second pass shapes every value) panic or copy bytes under the wrong type.
+func runShaperStepKindsCovered(c *Ctx, rule string) {
+	p := c.P
+	c.Rule(rule, "every constant of type expr.op that is stored into a step's op field anywhere in package runtime/sam/expr is compared with the op field in step.build, step.buildRecord or step.buildArrayOrSet: no step kind is created that the applying side does not handle")
+	isOpConst := func(v ssa.Value) (int64, bool) {
+		k, ok := v.(*ssa.Const)
+		if !ok || k.Value == nil || namedOf(k.Type()) != "runtime/sam/expr.op" || k.Value.Kind() != constant.Int {
+			return 0, false
+		}
+		return k.Int64(), true
+	}
+	isOpField := func(addr ssa.Value) bool {
+		fa, ok := addr.(*ssa.FieldAddr)
+		return ok && fieldVarOf(fa) != nil && fieldVarOf(fa).Name() == "op" && strings.HasSuffix(namedOf(fa.X.Type()), "expr.step")
+	}
+	created := map[int64]token.Pos{}
+	handled := map[int64]bool{}
+	applying := map[string]bool{"(*runtime/sam/expr.step).build": true, "(*runtime/sam/expr.step).buildRecord": true, "(*runtime/sam/expr.step).buildArrayOrSet": true}
+	found := 0
+	for _, fn := range p.FuncsIn("runtime/sam/expr") {
+		for _, b := range fn.Blocks {
+			for _, in := range b.Instrs {
+				switch x := in.(type) {
+				case *ssa.Store:
+					if k, ok := isOpConst(x.Val); ok && isOpField(x.Addr) {
+						if _, seen := created[k]; !seen {
+							created[k] = x.Pos()
+						}
+					}
+				case *ssa.Call:
+					// a kind handed to a step constructor as an argument (newArrayOrSetStep(.., array, ..))
+					if g := x.Common().StaticCallee(); g != nil && p.PkgOf(g) == "runtime/sam/expr" {
+						for _, a := range x.Common().Args {
+							if k, ok := isOpConst(a); ok {
+								if _, seen := created[k]; !seen {
+									created[k] = x.Pos()
+								}
+							}
+						}
+					}
+				case *ssa.BinOp:
+					if !applying[fnName(fn)] || x.Op != token.EQL {
+						continue
+					}
+					for _, side := range [][2]ssa.Value{{x.X, x.Y}, {x.Y, x.X}} {
+						k, ok := isOpConst(side[0])
+						if !ok {
+							continue
+						}
+						if l, isLoad := side[1].(*ssa.UnOp); isLoad && l.Op == token.MUL && isOpField(l.X) {
+							handled[k] = true
+							found++
+						} else if _, isParam := side[1].(*ssa.Parameter); isParam {
+							handled[k] = true
+						}
+					}
+				}
+			}
+		}
+	}
+	if len(created) < 5 || found < 5 {
+		c.Undecided(rule, "expr.step kinds", "fewer than five created / compared op constants found ("+sprint(len(created))+"/"+sprint(found)+")")
+		return
+	}
+	var ks []int64
+	for k := range created {
+		ks = append(ks, k)
+	}
+	sort.Slice(ks, func(i, j int) bool { return ks[i] < ks[j] })
+	for _, k := range ks {
+		name := opConstName(p, k)
+		if handled[k] {
+			c.OK(rule, "step kind "+name, created[k], "created and applied")
+		} else {
+			c.Fail(rule, "step kind "+name, created[k], "a step with op "+name+" is created but step.build/buildRecord/buildArrayOrSet never compare op with it: applying the step panics (unknown step.op) or treats the value as another kind, so fuse's second pass fails on inputs that need this step")
+		}
+	}
+}
+
+func opConstName(p *Prog, k int64) string {
+	if pk := p.Pkgs["runtime/sam/expr"]; pk != nil {
+		sc := pk.Types.Scope()
+		for _, n := range sc.Names() {
+			if cst, ok := sc.Lookup(n).(*types.Const); ok && namedOf(cst.Type()) == "runtime/sam/expr.op" {
+				if v, ok := constant.Int64Val(cst.Val()); ok && v == k {
+					return n
+				}
+			}
+		}
+	}
+	return sprint(int(k))
+}
